@@ -1280,4 +1280,1237 @@ theorem rstep_none_of_done (cfg : RCfg) (s : RState) (t : Tid) (h1 : s.pc t = .i
 
 end Routes
 
+
+/-! ## the full model (package lock + module locks, both routes, class configuration, dispatch fill) -/
+namespace Full
+
+abbrev Th (s : FState) (t : Tid) : Thread := s.threads t
+
+inductive FStep (cfg : FCfg) (s : FState) (t : Tid) : FState → Prop
+  -- dispatch fill in flight
+  | fillEarlyInc (m : Mod) (n : Nat) (hp : (Th s t).pending = some (m, n)) (he : cfg.publishEarly = true)
+      (hk : (s.cache m).getD 0 < cfg.tableSize m) :
+      FStep cfg s t (setT { s with cache := fun x => if x = m then some ((s.cache m).getD 0 + 1) else s.cache x } t (Th s t))
+  | fillEarlyDone (m : Mod) (n : Nat) (hp : (Th s t).pending = some (m, n)) (he : cfg.publishEarly = true)
+      (hk : ¬ (s.cache m).getD 0 < cfg.tableSize m) :
+      FStep cfg s t (setT s t { finishOp (Th s t) (.disp m ((s.cache m).getD 0)) with pending := none })
+  | fillLocalInc (m : Mod) (n : Nat) (hp : (Th s t).pending = some (m, n)) (he : cfg.publishEarly = false)
+      (hk : n < cfg.tableSize m) :
+      FStep cfg s t (setT s t { (Th s t) with pending := some (m, n + 1) })
+  | fillLocalStore (m : Mod) (n : Nat) (hp : (Th s t).pending = some (m, n)) (he : cfg.publishEarly = false)
+      (hk : ¬ n < cfg.tableSize m) :
+      FStep cfg s t (setT { s with cache := fun x => if x = m then some n else s.cache x } t
+        { finishOp (Th s t) (.disp m n) with pending := none })
+  -- starting an operation
+  | accessFast (m : Mod) (rest : List Op) (hp : (Th s t).pending = none) (hst : (Th s t).stack = [])
+      (ht : (Th s t).todo = .access m :: rest) (hf : cfg.fastPath = true) (hs : s.started m = true) :
+      FStep cfg s t (setT s t (finishOp (Th s t) (.attr m (s.done m))))
+  | accessStart (m : Mod) (rest : List Op) (hp : (Th s t).pending = none) (hst : (Th s t).stack = [])
+      (ht : (Th s t).todo = .access m :: rest) (hf : (cfg.fastPath && s.started m) = false) :
+      FStep cfg s t (setT s t { (Th s t) with stack := [.wantP m] })
+  | lookupHit (m : Mod) (rest : List Op) (hp : (Th s t).pending = none) (hst : (Th s t).stack = [])
+      (ht : (Th s t).todo = .lookup m :: rest) (hr : s.registered m = true)
+      (hw : (!cfg.lookupWaits || !initializing s m) = true) :
+      FStep cfg s t (setT s t (finishOp (Th s t) (.cls m true (s.confDone m) (s.done m))))
+  | lookupLoad (m : Mod) (rest : List Op) (hp : (Th s t).pending = none) (hst : (Th s t).stack = [])
+      (ht : (Th s t).todo = .lookup m :: rest)
+      (hw : (s.registered m && (!cfg.lookupWaits || !initializing s m)) = false) :
+      FStep cfg s t (setT s t { (Th s t) with stack := [.wantM m false] })
+  | genHit (m : Mod) (rest : List Op) (n : Nat) (hp : (Th s t).pending = none) (hst : (Th s t).stack = [])
+      (ht : (Th s t).todo = .gen m :: rest) (hc : s.cache m = some n) :
+      FStep cfg s t (setT s t (finishOp (Th s t) (.disp m n)))
+  | genMissEarly (m : Mod) (rest : List Op) (hp : (Th s t).pending = none) (hst : (Th s t).stack = [])
+      (ht : (Th s t).todo = .gen m :: rest) (hc : s.cache m = none) (he : cfg.publishEarly = true) :
+      FStep cfg s t (setT { s with cache := fun x => if x = m then some 0 else s.cache x } t
+        { (Th s t) with pending := some (m, 0) })
+  | genMissLocal (m : Mod) (rest : List Op) (hp : (Th s t).pending = none) (hst : (Th s t).stack = [])
+      (ht : (Th s t).todo = .gen m :: rest) (hc : s.cache m = none) (he : cfg.publishEarly = false) :
+      FStep cfg s t (setT s t { (Th s t) with pending := some (m, 0) })
+  -- frames
+  | acqP (m : Mod) (fs : List Frame) (lk : Option (Tid × Nat)) (hp : (Th s t).pending = none)
+      (hst : (Th s t).stack = .wantP m :: fs) (ha : acquire .rlock s.pkg t = some lk) :
+      FStep cfg s t (setT { s with pkg := lk } t { (Th s t) with stack := .wantM m true :: fs })
+  | acqM (m : Mod) (l : Bool) (fs : List Frame) (ml : Option (Tid × Nat)) (hp : (Th s t).pending = none)
+      (hst : (Th s t).stack = .wantM m l :: fs) (ha : acquire .rlock (s.mlock m) t = some ml) :
+      FStep cfg s t (setT { s with mlock := fun x => if x = m then ml else s.mlock x } t
+        { (Th s t) with stack := .test m l :: fs })
+  | testHit (m : Mod) (l : Bool) (fs : List Frame) (hp : (Th s t).pending = none)
+      (hst : (Th s t).stack = .test m l :: fs) (h : s.started m = true) :
+      FStep cfg s t (setT s t { (Th s t) with stack := .leave m l :: fs })
+  | testMiss (m : Mod) (l : Bool) (fs : List Frame) (hp : (Th s t).pending = none)
+      (hst : (Th s t).stack = .test m l :: fs) (h : s.started m = false) :
+      FStep cfg s t (setT s t { (Th s t) with stack := .load m l :: fs })
+  | load (m : Mod) (l : Bool) (fs : List Frame) (hp : (Th s t).pending = none)
+      (hst : (Th s t).stack = .load m l :: fs) :
+      FStep cfg s t (setT { s with started := fun x => if x = m then true else s.started x,
+                                   loads := fun x => if x = m then s.loads m + 1 else s.loads x } t
+        { (Th s t) with stack := .body m l (cfg.body m) :: fs })
+  | nestLazy (m : Mod) (l : Bool) (d : Mod) (rest : List Item) (fs : List Frame) (hp : (Th s t).pending = none)
+      (hst : (Th s t).stack = .body m l (.lazy d :: rest) :: fs) :
+      FStep cfg s t (setT s t { (Th s t) with stack := .wantP d :: .body m l rest :: fs })
+  | nestDirect (m : Mod) (l : Bool) (d : Mod) (rest : List Item) (fs : List Frame) (hp : (Th s t).pending = none)
+      (hst : (Th s t).stack = .body m l (.direct d :: rest) :: fs) :
+      FStep cfg s t (setT s t { (Th s t) with stack := .wantM d false :: .body m l rest :: fs })
+  | bodyEnd (m : Mod) (l : Bool) (fs : List Frame) (hp : (Th s t).pending = none)
+      (hst : (Th s t).stack = .body m l [] :: fs) :
+      FStep cfg s t (setT { s with registered := fun x => if x = m then (cfg.registerFirst || s.registered m) else s.registered x } t
+        { (Th s t) with stack := .conf m l (cfg.cfgSteps m) :: fs })
+  | confStep (m : Mod) (l : Bool) (k : Nat) (fs : List Frame) (hp : (Th s t).pending = none)
+      (hst : (Th s t).stack = .conf m l (k + 1) :: fs) :
+      FStep cfg s t (setT s t { (Th s t) with stack := .conf m l k :: fs })
+  | confEnd (m : Mod) (l : Bool) (fs : List Frame) (hp : (Th s t).pending = none)
+      (hst : (Th s t).stack = .conf m l 0 :: fs) :
+      FStep cfg s t (setT { s with confDone := fun x => if x = m then true else s.confDone x,
+                                   registered := fun x => if x = m then true else s.registered x } t
+        { (Th s t) with stack := .fin m l :: fs })
+  | fin (m : Mod) (l : Bool) (fs : List Frame) (hp : (Th s t).pending = none)
+      (hst : (Th s t).stack = .fin m l :: fs) :
+      FStep cfg s t (setT { s with done := fun x => if x = m then true else s.done x } t
+        { (Th s t) with stack := .leave m l :: fs })
+  | leaveLock (m : Mod) (fs : List Frame) (ml lk : Option (Tid × Nat)) (hp : (Th s t).pending = none)
+      (hst : (Th s t).stack = .leave m true :: fs) (hm : release .rlock (s.mlock m) t = some ml)
+      (hr : release .rlock s.pkg t = some lk) :
+      FStep cfg s t (setT { s with mlock := fun x => if x = m then ml else s.mlock x, pkg := lk } t
+        (popFrame s (Th s t) m fs))
+  | leaveFree (m : Mod) (fs : List Frame) (ml : Option (Tid × Nat)) (hp : (Th s t).pending = none)
+      (hst : (Th s t).stack = .leave m false :: fs) (hm : release .rlock (s.mlock m) t = some ml) :
+      FStep cfg s t (setT { s with mlock := fun x => if x = m then ml else s.mlock x } t (popFrame s (Th s t) m fs))
+
+theorem fstep_sound {cfg : FCfg} {s s' : FState} {t : Tid} (h : fstep cfg s t = some s') : FStep cfg s t s' := by
+  unfold fstep at h
+  split at h
+  · rename_i m n hp
+    simp only [Option.some.injEq] at h
+    subst h
+    unfold stepFill
+    by_cases he : cfg.publishEarly = true
+    · simp only [he, if_true]
+      by_cases hk : (s.cache m).getD 0 < cfg.tableSize m
+      · simp only [hk, if_true]; exact .fillEarlyInc m n hp he hk
+      · simp only [hk, if_false]; exact .fillEarlyDone m n hp he hk
+    · have he' : cfg.publishEarly = false := by simpa using he
+      simp only [he', Bool.false_eq_true, if_false]
+      by_cases hk : n < cfg.tableSize m
+      · simp only [hk, if_true]; exact .fillLocalInc m n hp he' hk
+      · simp only [hk, if_false]; exact .fillLocalStore m n hp he' hk
+  · rename_i hp
+    split at h
+    · rename_i hst
+      unfold stepStart at h
+      split at h
+      · simp at h
+      · rename_i m rest ht
+        split at h
+        · rename_i hf
+          simp only [Option.some.injEq] at h; subst h
+          simp only [Bool.and_eq_true] at hf
+          exact .accessFast m rest hp hst ht hf.1 hf.2
+        · rename_i hf
+          simp only [Option.some.injEq] at h; subst h
+          exact .accessStart m rest hp hst ht (by simpa using hf)
+      · rename_i m rest ht
+        split at h
+        · rename_i hf
+          simp only [Option.some.injEq] at h; subst h
+          simp only [Bool.and_eq_true] at hf
+          exact .lookupHit m rest hp hst ht hf.1 hf.2
+        · rename_i hf
+          simp only [Option.some.injEq] at h; subst h
+          exact .lookupLoad m rest hp hst ht (by simpa using hf)
+      · rename_i m rest ht
+        split at h
+        · rename_i n hc
+          simp only [Option.some.injEq] at h; subst h
+          exact .genHit m rest n hp hst ht hc
+        · rename_i hc
+          split at h
+          · rename_i he
+            simp only [Option.some.injEq] at h; subst h
+            exact .genMissEarly m rest hp hst ht hc he
+          · rename_i he
+            simp only [Option.some.injEq] at h; subst h
+            exact .genMissLocal m rest hp hst ht hc (by simpa using he)
+    · rename_i f fs hst
+      cases f with
+      | wantP m =>
+        simp only [stepFrame] at h
+        split at h
+        · simp at h
+        · rename_i lk ha
+          simp only [Option.some.injEq] at h; subst h
+          exact .acqP m fs lk hp hst ha
+      | wantM m l =>
+        simp only [stepFrame] at h
+        split at h
+        · simp at h
+        · rename_i ml ha
+          simp only [Option.some.injEq] at h; subst h
+          exact .acqM m l fs ml hp hst ha
+      | test m l =>
+        simp only [stepFrame] at h
+        split at h
+        · rename_i hs
+          simp only [Option.some.injEq] at h; subst h
+          exact .testHit m l fs hp hst hs
+        · rename_i hs
+          simp only [Option.some.injEq] at h; subst h
+          exact .testMiss m l fs hp hst (by simpa using hs)
+      | load m l =>
+        simp only [stepFrame, Option.some.injEq] at h; subst h
+        exact .load m l fs hp hst
+      | body m l rest =>
+        simp only [stepFrame, Option.some.injEq] at h; subst h
+        unfold stepBody
+        split
+        · exact .bodyEnd m l fs hp hst
+        · exact .nestLazy m l _ _ fs hp hst
+        · exact .nestDirect m l _ _ fs hp hst
+      | conf m l k =>
+        cases k with
+        | zero =>
+          simp only [stepFrame, Option.some.injEq] at h; subst h
+          exact .confEnd m l fs hp hst
+        | succ k =>
+          simp only [stepFrame, Option.some.injEq] at h; subst h
+          exact .confStep m l k fs hp hst
+      | fin m l =>
+        simp only [stepFrame, Option.some.injEq] at h; subst h
+        exact .fin m l fs hp hst
+      | leave m l =>
+        simp only [stepFrame] at h
+        unfold stepLeave at h
+        split at h
+        · simp at h
+        · rename_i ml hm
+          cases l with
+          | true =>
+            simp only [if_true] at h
+            split at h
+            · simp at h
+            · rename_i lk hr
+              simp only [Option.some.injEq] at h; subst h
+              exact .leaveLock m fs ml lk hp hst hm hr
+          | false =>
+            simp only [Bool.false_eq_true, if_false, Option.some.injEq] at h; subst h
+            exact .leaveFree m fs ml hp hst hm
+
+
+/-! ### frame lemmas -/
+
+@[simp] theorem fsetT_same (s : FState) (t : Tid) (th : Thread) : (setT s t th).threads t = th := by simp [setT]
+theorem fsetT_other (s : FState) (t : Tid) (th : Thread) (u : Tid) (h : u ≠ t) :
+    (setT s t th).threads u = s.threads u := by simp [setT, h]
+@[simp] theorem fsetT_pkg (s : FState) (t : Tid) (th : Thread) : (setT s t th).pkg = s.pkg := rfl
+@[simp] theorem fsetT_mlock (s : FState) (t : Tid) (th : Thread) : (setT s t th).mlock = s.mlock := rfl
+@[simp] theorem fsetT_started (s : FState) (t : Tid) (th : Thread) : (setT s t th).started = s.started := rfl
+@[simp] theorem fsetT_done (s : FState) (t : Tid) (th : Thread) : (setT s t th).done = s.done := rfl
+@[simp] theorem fsetT_registered (s : FState) (t : Tid) (th : Thread) : (setT s t th).registered = s.registered := rfl
+@[simp] theorem fsetT_confDone (s : FState) (t : Tid) (th : Thread) : (setT s t th).confDone = s.confDone := rfl
+@[simp] theorem fsetT_loads (s : FState) (t : Tid) (th : Thread) : (setT s t th).loads = s.loads := rfl
+@[simp] theorem fsetT_cache (s : FState) (t : Tid) (th : Thread) : (setT s t th).cache = s.cache := rfl
+
+@[simp] theorem finishOp_stack (th : Thread) (r : Res) : (finishOp th r).stack = th.stack := rfl
+@[simp] theorem finishOp_pending (th : Thread) (r : Res) : (finishOp th r).pending = th.pending := rfl
+@[simp] theorem fpopFrame_stack (s : FState) (th : Thread) (m : Mod) (fs : List Frame) :
+    (popFrame s th m fs).stack = fs := by cases fs <;> rfl
+@[simp] theorem fpopFrame_pending (s : FState) (th : Thread) (m : Mod) (fs : List Frame) :
+    (popFrame s th m fs).pending = th.pending := by cases fs <;> rfl
+
+theorem FStep.others {cfg : FCfg} {s s' : FState} {t : Tid} (h : FStep cfg s t s') (u : Tid) (hu : u ≠ t) :
+    s'.threads u = s.threads u := by
+  cases h <;> exact fsetT_other _ _ _ _ hu
+
+/-! ### importlib's module locks: depth = nesting, one owner -/
+
+def mheld (st : List Frame) (m : Mod) : Nat := st.countP (fun f => f.holdsMod == some m)
+
+def shapeOk : List Frame → Bool
+  | [] => true
+  | _ :: rest => rest.all Frame.isBody
+
+structure MInv (s : FState) : Prop where
+  depth : ∀ t m, mheld (Th s t).stack m = depthOf (s.mlock m) t
+  shape : ∀ t, shapeOk (Th s t).stack = true
+
+theorem mheld_pos {st : List Frame} {f : Frame} {m : Mod} (hf : f ∈ st) (hm : f.holdsMod = some m) :
+    0 < mheld st m := by
+  unfold mheld
+  rw [List.countP_pos_iff]
+  exact ⟨f, hf, by simp [hm]⟩
+
+theorem MInv.mutex {s : FState} (h : MInv s) {t u : Tid} {m : Mod} (ht : 0 < mheld (Th s t).stack m)
+    (hu : 0 < mheld (Th s u).stack m) : t = u := by
+  rw [h.depth t m] at ht
+  rw [h.depth u m] at hu
+  unfold depthOf at ht hu
+  cases hl : s.mlock m with
+  | none => simp [hl] at ht
+  | some p =>
+    obtain ⟨o, d⟩ := p
+    simp only [hl] at ht hu
+    split at ht
+    · split at hu
+      · rename_i h1 h2; rw [← h1, ← h2]
+      · omega
+    · omega
+
+theorem MInv.of_update {s s' : FState} {t : Tid} (h : MInv s)
+    (hoth : ∀ u, u ≠ t → s'.threads u = s.threads u)
+    (hdo : ∀ m u, u ≠ t → depthOf (s'.mlock m) u = depthOf (s.mlock m) u)
+    (hdt : ∀ m, mheld (Th s' t).stack m = depthOf (s'.mlock m) t)
+    (hsh : shapeOk (Th s' t).stack = true) : MInv s' := by
+  constructor
+  · intro u m
+    by_cases hu : u = t
+    · subst hu; exact hdt m
+    · show mheld (s'.threads u).stack m = _
+      rw [hoth u hu, hdo m u hu]; exact h.depth u m
+  · intro u
+    by_cases hu : u = t
+    · subst hu; exact hsh
+    · show shapeOk (s'.threads u).stack = true
+      rw [hoth u hu]; exact h.shape u
+
+theorem shape_top {f f' : Frame} {fs : List Frame} (h : shapeOk (f :: fs) = true) : shapeOk (f' :: fs) = true := h
+
+theorem shape_pop {f : Frame} {fs : List Frame} (h : shapeOk (f :: fs) = true) : shapeOk fs = true := by
+  cases fs with
+  | nil => rfl
+  | cons g rest =>
+    simp only [shapeOk, List.all_cons, Bool.and_eq_true] at h
+    exact h.2
+
+theorem shape_push {b b' n : Frame} {fs : List Frame} (h : shapeOk (b :: fs) = true) (hb : b'.isBody = true) :
+    shapeOk (n :: b' :: fs) = true := by
+  simp only [shapeOk, List.all_cons, Bool.and_eq_true] at h ⊢
+  exact ⟨hb, h⟩
+
+theorem MInv.step {cfg : FCfg} {s s' : FState} {t : Tid} (h : MInv s) (hs : FStep cfg s t s') : MInv s' := by
+  have hd := h.depth t
+  have hw := h.shape t
+  unfold mheld at hd
+  -- steps that neither touch the module locks nor the set of lock-holding frames of `t`
+  have same : ∀ (s1 : FState) (th : Thread), s1.threads = s.threads → s1.mlock = s.mlock →
+      (∀ m, mheld th.stack m = mheld (Th s t).stack m) → shapeOk th.stack = true → MInv (setT s1 t th) := by
+    intro s1 th e0 e1 e2 e3
+    refine h.of_update (t := t) (fun u hu => by rw [fsetT_other _ _ _ _ hu, e0]) (fun m u _ => by simp [e1]) ?_
+      (by simpa [Th] using e3)
+    intro m
+    simp only [Th, fsetT_same, fsetT_mlock, e1]
+    rw [e2 m]; exact h.depth t m
+  cases hs with
+  | fillEarlyInc m n hp he hk => exact same _ _ rfl rfl (fun _ => rfl) hw
+  | fillEarlyDone m n hp he hk => exact same _ _ rfl rfl (fun _ => rfl) hw
+  | fillLocalInc m n hp he hk => exact same _ _ rfl rfl (fun _ => rfl) hw
+  | fillLocalStore m n hp he hk => exact same _ _ rfl rfl (fun _ => rfl) hw
+  | accessFast m rest hp hst ht hf hs => exact same _ _ rfl rfl (fun _ => rfl) hw
+  | accessStart m rest hp hst ht hf =>
+    exact same _ _ rfl rfl (fun m' => by simp [mheld, Th, hst, Frame.holdsMod]) (by simp [shapeOk])
+  | lookupHit m rest hp hst ht hr hw' => exact same _ _ rfl rfl (fun _ => rfl) hw
+  | lookupLoad m rest hp hst ht hw' =>
+    exact same _ _ rfl rfl (fun m' => by simp [mheld, Th, hst, Frame.holdsMod]) (by simp [shapeOk])
+  | genHit m rest n hp hst ht hc => exact same _ _ rfl rfl (fun _ => rfl) hw
+  | genMissEarly m rest hp hst ht hc he => exact same _ _ rfl rfl (fun _ => rfl) hw
+  | genMissLocal m rest hp hst ht hc he => exact same _ _ rfl rfl (fun _ => rfl) hw
+  | acqP m fs lk hp hst ha =>
+    exact same _ _ rfl rfl (fun m' => by simp [mheld, Th, hst, Frame.holdsMod, List.countP_cons]) (by rw [Th, hst] at hw; exact shape_top hw)
+  | acqM m l fs ml hp hst ha =>
+    obtain ⟨h1, h2⟩ := acquire_rlock ha
+    rw [Th, hst] at hw
+    refine h.of_update (fun u hu => fsetT_other _ _ _ _ hu) ?_ ?_ (by simpa using shape_top hw)
+    · intro m' u hu
+      simp only [fsetT_mlock]
+      by_cases hm : m' = m
+      · subst hm; simp only [if_true]; exact h2 u hu
+      · simp [hm]
+    · intro m'
+      have := h.depth t m'
+      simp only [Th, fsetT_same, fsetT_mlock] at this ⊢
+      rw [hst] at this
+      by_cases hm : m' = m
+      · subst hm
+        simp only [if_true, h1, ← this]
+        simp [mheld, List.countP_cons, Frame.holdsMod, Frame.mod]
+      · simp only [hm, if_false, ← this]
+        have : ¬ m = m' := fun e => hm e.symm
+        simp [mheld, List.countP_cons, Frame.holdsMod, Frame.mod, this]
+  | testHit m l fs hp hst hstart =>
+    exact same _ _ rfl rfl (fun m' => by simp [mheld, Th, hst, Frame.holdsMod, Frame.mod, List.countP_cons]) (by rw [Th, hst] at hw; exact shape_top hw)
+  | testMiss m l fs hp hst hstart =>
+    exact same _ _ rfl rfl (fun m' => by simp [mheld, Th, hst, Frame.holdsMod, Frame.mod, List.countP_cons]) (by rw [Th, hst] at hw; exact shape_top hw)
+  | load m l fs hp hst =>
+    exact same _ _ rfl rfl (fun m' => by simp [mheld, Th, hst, Frame.holdsMod, Frame.mod, List.countP_cons]) (by rw [Th, hst] at hw; exact shape_top hw)
+  | nestLazy m l d rest fs hp hst =>
+    exact same _ _ rfl rfl (fun m' => by simp [mheld, Th, hst, Frame.holdsMod, Frame.mod, List.countP_cons])
+      (by rw [Th, hst] at hw; exact shape_push hw rfl)
+  | nestDirect m l d rest fs hp hst =>
+    exact same _ _ rfl rfl (fun m' => by simp [mheld, Th, hst, Frame.holdsMod, Frame.mod, List.countP_cons])
+      (by rw [Th, hst] at hw; exact shape_push hw rfl)
+  | bodyEnd m l fs hp hst =>
+    exact same _ _ rfl rfl (fun m' => by simp [mheld, Th, hst, Frame.holdsMod, Frame.mod, List.countP_cons]) (by rw [Th, hst] at hw; exact shape_top hw)
+  | confStep m l k fs hp hst =>
+    exact same _ _ rfl rfl (fun m' => by simp [mheld, Th, hst, Frame.holdsMod, Frame.mod, List.countP_cons]) (by rw [Th, hst] at hw; exact shape_top hw)
+  | confEnd m l fs hp hst =>
+    exact same _ _ rfl rfl (fun m' => by simp [mheld, Th, hst, Frame.holdsMod, Frame.mod, List.countP_cons]) (by rw [Th, hst] at hw; exact shape_top hw)
+  | fin m l fs hp hst =>
+    exact same _ _ rfl rfl (fun m' => by simp [mheld, Th, hst, Frame.holdsMod, Frame.mod, List.countP_cons]) (by rw [Th, hst] at hw; exact shape_top hw)
+  | leaveLock m fs ml lk hp hst hm hr =>
+    obtain ⟨h1, h2⟩ := release_rlock hm
+    rw [Th, hst] at hw
+    refine h.of_update (fun u hu => fsetT_other _ _ _ _ hu) ?_ ?_ (by simpa using shape_pop hw)
+    · intro m' u hu
+      simp only [fsetT_mlock]
+      by_cases hmm : m' = m
+      · subst hmm; simp only [if_true]; exact h2 u hu
+      · simp [hmm]
+    · intro m'
+      have := h.depth t m'
+      simp only [Th, fsetT_same, fsetT_mlock, fpopFrame_stack] at this ⊢
+      rw [hst] at this
+      by_cases hmm : m' = m
+      · subst hmm
+        simp only [if_true, h1, ← this]
+        simp [mheld, List.countP_cons, Frame.holdsMod, Frame.mod]
+      · simp only [hmm, if_false, ← this]
+        have : ¬ m = m' := fun e => hmm e.symm
+        simp [mheld, List.countP_cons, Frame.holdsMod, Frame.mod, this]
+  | leaveFree m fs ml hp hst hm =>
+    obtain ⟨h1, h2⟩ := release_rlock hm
+    rw [Th, hst] at hw
+    refine h.of_update (fun u hu => fsetT_other _ _ _ _ hu) ?_ ?_ (by simpa using shape_pop hw)
+    · intro m' u hu
+      simp only [fsetT_mlock]
+      by_cases hmm : m' = m
+      · subst hmm; simp only [if_true]; exact h2 u hu
+      · simp [hmm]
+    · intro m'
+      have := h.depth t m'
+      simp only [Th, fsetT_same, fsetT_mlock, fpopFrame_stack] at this ⊢
+      rw [hst] at this
+      by_cases hmm : m' = m
+      · subst hmm
+        simp only [if_true, h1, ← this]
+        simp [mheld, List.countP_cons, Frame.holdsMod, Frame.mod]
+      · simp only [hmm, if_false, ← this]
+        have : ¬ m = m' := fun e => hmm e.symm
+        simp [mheld, List.countP_cons, Frame.holdsMod, Frame.mod, this]
+
+
+/-! ### loading happens once (by the module lock alone) -/
+
+structure FLoadInv (s : FState) : Prop where
+  loads : ∀ m, s.loads m = if s.started m = true then 1 else 0
+  loadTop : ∀ t m l fs, (Th s t).stack = .load m l :: fs → s.started m = false
+
+theorem shape_tail_body {f g : Frame} {fs : List Frame} (h : shapeOk (f :: g :: fs) = true) : g.isBody = true := by
+  simp only [shapeOk, List.all_cons, Bool.and_eq_true] at h
+  exact h.1
+
+theorem FLoadInv.step {cfg : FCfg} {s s' : FState} {t : Tid} (hM : MInv s) (h : FLoadInv s)
+    (hs : FStep cfg s t s') : FLoadInv s' := by
+  have hoth := hs.others
+  have hw := hM.shape t
+  by_cases hload : ∃ m l fs, (Th s t).stack = .load m l :: fs ∧
+      s' = setT { s with started := fun x => if x = m then true else s.started x,
+                         loads := fun x => if x = m then s.loads m + 1 else s.loads x } t
+                { (Th s t) with stack := .body m l (cfg.body m) :: fs }
+  · obtain ⟨m, l, fs, hst, rfl⟩ := hload
+    have hm := h.loadTop t m l fs hst
+    constructor
+    · intro x
+      by_cases hx : x = m
+      · subst hx
+        have := h.loads x
+        simp [hm] at this
+        simp [this]
+      · simp [hx]; simpa using h.loads x
+    · intro u m' l' fs' hu
+      by_cases hut : u = t
+      · subst hut; simp [Th] at hu
+      · simp only [Th] at hu
+        rw [fsetT_other _ _ _ _ hut] at hu
+        have hu' : (s.threads u).stack = .load m' l' :: fs' := hu
+        by_cases hx : m' = m
+        · subst hx
+          have h1 : 0 < mheld (Th s u).stack m' := mheld_pos (f := .load m' l') (by simp [Th, hu']) rfl
+          have h2 : 0 < mheld (Th s t).stack m' := mheld_pos (f := .load m' l) (by simp [hst]) rfl
+          exact absurd (hM.mutex h1 h2) hut
+        · simp [hx]; exact h.loadTop u m' l' fs' hu'
+  · have hsame : s'.started = s.started ∧ s'.loads = s.loads := by
+      cases hs <;> first | exact ⟨rfl, rfl⟩ | (exfalso; exact hload ⟨_, _, _, ‹_›, rfl⟩)
+    constructor
+    · intro x; rw [hsame.1, hsame.2]; exact h.loads x
+    · intro u m' l' fs' hu
+      rw [hsame.1]
+      by_cases hut : u = t
+      · subst hut
+        simp only [Th] at hu
+        cases hs with
+        | fillEarlyInc m n hp he hk => exact h.loadTop u m' l' fs' (by simpa using hu)
+        | fillEarlyDone m n hp he hk => exact h.loadTop u m' l' fs' (by simpa using hu)
+        | fillLocalInc m n hp he hk => exact h.loadTop u m' l' fs' (by simpa using hu)
+        | fillLocalStore m n hp he hk => exact h.loadTop u m' l' fs' (by simpa using hu)
+        | accessFast m rest hp hst ht hf hs => exact h.loadTop u m' l' fs' (by simpa using hu)
+        | accessStart m rest hp hst ht hf => simp at hu
+        | lookupHit m rest hp hst ht hr hw' => exact h.loadTop u m' l' fs' (by simpa using hu)
+        | lookupLoad m rest hp hst ht hw' => simp at hu
+        | genHit m rest n hp hst ht hc => exact h.loadTop u m' l' fs' (by simpa using hu)
+        | genMissEarly m rest hp hst ht hc he => exact h.loadTop u m' l' fs' (by simpa using hu)
+        | genMissLocal m rest hp hst ht hc he => exact h.loadTop u m' l' fs' (by simpa using hu)
+        | acqP m fs lk hp hst ha => simp at hu
+        | acqM m l fs ml hp hst ha => simp at hu
+        | testHit m l fs hp hst hstart => simp at hu
+        | testMiss m l fs hp hst hstart => simp at hu; obtain ⟨⟨rfl, rfl⟩, rfl⟩ := hu; exact hstart
+        | load m l fs hp hst => exact absurd ⟨m, l, fs, hst, rfl⟩ hload
+        | nestLazy m l d rest fs hp hst => simp at hu
+        | nestDirect m l d rest fs hp hst => simp at hu
+        | bodyEnd m l fs hp hst => simp at hu
+        | confStep m l k fs hp hst => simp at hu
+        | confEnd m l fs hp hst => simp at hu
+        | fin m l fs hp hst => simp at hu
+        | leaveLock m fs ml lk hp hst hm hr =>
+          simp at hu; subst hu; rw [Th, hst] at hw; have := shape_tail_body hw; simp [Frame.isBody] at this
+        | leaveFree m fs ml hp hst hm =>
+          simp at hu; subst hu; rw [Th, hst] at hw; have := shape_tail_body hw; simp [Frame.isBody] at this
+      · simp only [Th] at hu
+        rw [hoth u hut] at hu
+        exact h.loadTop u m' l' fs' hu
+
+/-! ### module / class life cycle flags -/
+
+def hasProg (st : List Frame) (m : Mod) : Prop := ∃ f ∈ st, f.inProgress = some m
+
+def Frame.after : Frame → Bool
+  | .body _ _ _ => true
+  | .conf _ _ _ => true
+  | .fin _ _ => true
+  | .leave _ _ => true
+  | _ => false
+
+/-- a frame past the test belongs to a module that is in sys.modules; the class of a `fin` frame is configured -/
+@[reducible] def frameOk (s : FState) (f : Frame) : Prop :=
+  (f.after = true → s.started f.mod = true) ∧ (∀ m l, f = Frame.fin m l → s.confDone m = true)
+
+structure FlagInv (cfg : FCfg) (s : FState) : Prop where
+  prog : ∀ m, s.started m = true → s.done m = true ∨ ∃ t, hasProg (Th s t).stack m
+  fr : ∀ t f, f ∈ (Th s t).stack → frameOk s f
+  d2c : ∀ m, s.done m = true → s.confDone m = true
+  c2r : ∀ m, s.confDone m = true → s.registered m = true
+  r2s : ∀ m, s.registered m = true → s.started m = true
+  regLast : cfg.registerFirst = false → ∀ m, s.registered m = true → s.confDone m = true
+
+theorem FStep.started_mono {cfg : FCfg} {s s' : FState} {t : Tid} (hs : FStep cfg s t s') (x : Mod)
+    (h : s.started x = true) : s'.started x = true := by
+  cases hs <;> first | exact h | (simp; exact Or.inr h)
+
+theorem FStep.done_mono {cfg : FCfg} {s s' : FState} {t : Tid} (hs : FStep cfg s t s') (x : Mod)
+    (h : s.done x = true) : s'.done x = true := by
+  cases hs <;> first | exact h | (simp; exact Or.inr h)
+
+theorem FStep.confDone_mono {cfg : FCfg} {s s' : FState} {t : Tid} (hs : FStep cfg s t s') (x : Mod)
+    (h : s.confDone x = true) : s'.confDone x = true := by
+  cases hs <;> first | exact h | (simp; exact Or.inr h)
+
+theorem FStep.registered_mono {cfg : FCfg} {s s' : FState} {t : Tid} (hs : FStep cfg s t s') (x : Mod)
+    (h : s.registered x = true) : s'.registered x = true := by
+  cases hs <;> first
+    | exact h
+    | (simp; exact Or.inr h)
+    | (simp only [fsetT_registered]; split <;> simp_all)
+
+theorem hasProg_cons {f : Frame} {fs : List Frame} {m : Mod} :
+    hasProg (f :: fs) m ↔ f.inProgress = some m ∨ hasProg fs m := by
+  simp [hasProg]
+
+theorem FStep.prog_or_done {cfg : FCfg} {s s' : FState} {t : Tid} (hs : FStep cfg s t s') (u : Tid) (x : Mod)
+    (hb : hasProg (Th s u).stack x) : hasProg (Th s' u).stack x ∨ s'.done x = true := by
+  by_cases hut : u = t
+  · subst hut
+    simp only [Th] at hb ⊢
+    cases hs with
+    | fillEarlyInc m n hp he hk => left; simpa using hb
+    | fillEarlyDone m n hp he hk => left; simpa using hb
+    | fillLocalInc m n hp he hk => left; simpa using hb
+    | fillLocalStore m n hp he hk => left; simpa using hb
+    | accessFast m rest hp hst ht hf hs => left; simpa using hb
+    | accessStart m rest hp hst ht hf => simp [Th] at hst; simp [hst, hasProg] at hb
+    | lookupHit m rest hp hst ht hr hw' => left; simpa using hb
+    | lookupLoad m rest hp hst ht hw' => simp [Th] at hst; simp [hst, hasProg] at hb
+    | genHit m rest n hp hst ht hc => left; simpa using hb
+    | genMissEarly m rest hp hst ht hc he => left; simpa using hb
+    | genMissLocal m rest hp hst ht hc he => left; simpa using hb
+    | acqP m fs lk hp hst ha =>
+      simp only [Th] at hst; rw [hst, hasProg_cons] at hb; left
+      simp only [fsetT_same]; rw [hasProg_cons]; simpa [Frame.inProgress] using hb
+    | acqM m l fs ml hp hst ha =>
+      simp only [Th] at hst; rw [hst, hasProg_cons] at hb; left
+      simp only [fsetT_same]; rw [hasProg_cons]; simpa [Frame.inProgress] using hb
+    | testHit m l fs hp hst hstart =>
+      simp only [Th] at hst; rw [hst, hasProg_cons] at hb; left
+      simp only [fsetT_same]; rw [hasProg_cons]; simpa [Frame.inProgress] using hb
+    | testMiss m l fs hp hst hstart =>
+      simp only [Th] at hst; rw [hst, hasProg_cons] at hb; left
+      simp only [fsetT_same]; rw [hasProg_cons]; simpa [Frame.inProgress] using hb
+    | load m l fs hp hst =>
+      simp only [Th] at hst; rw [hst, hasProg_cons] at hb; left
+      simp only [fsetT_same]; rw [hasProg_cons]; right; simpa [Frame.inProgress] using hb
+    | nestLazy m l d rest fs hp hst =>
+      simp only [Th] at hst; rw [hst, hasProg_cons] at hb; left
+      simp only [fsetT_same]; rw [hasProg_cons, hasProg_cons]; right; simpa [Frame.inProgress] using hb
+    | nestDirect m l d rest fs hp hst =>
+      simp only [Th] at hst; rw [hst, hasProg_cons] at hb; left
+      simp only [fsetT_same]; rw [hasProg_cons, hasProg_cons]; right; simpa [Frame.inProgress] using hb
+    | bodyEnd m l fs hp hst =>
+      simp only [Th] at hst; rw [hst, hasProg_cons] at hb; left
+      simp only [fsetT_same]; rw [hasProg_cons]; simpa [Frame.inProgress] using hb
+    | confStep m l k fs hp hst =>
+      simp only [Th] at hst; rw [hst, hasProg_cons] at hb; left
+      simp only [fsetT_same]; rw [hasProg_cons]; simpa [Frame.inProgress] using hb
+    | confEnd m l fs hp hst =>
+      simp only [Th] at hst; rw [hst, hasProg_cons] at hb; left
+      simp only [fsetT_same]; rw [hasProg_cons]; simpa [Frame.inProgress] using hb
+    | fin m l fs hp hst =>
+      simp only [Th] at hst; rw [hst, hasProg_cons] at hb
+      rcases hb with hb | hb
+      · right; simp [Frame.inProgress] at hb; subst hb; simp
+      · left; simp only [fsetT_same]; rw [hasProg_cons]; exact Or.inr hb
+    | leaveLock m fs ml lk hp hst hm hr =>
+      simp only [Th] at hst; rw [hst, hasProg_cons] at hb; left
+      simpa [Frame.inProgress] using hb
+    | leaveFree m fs ml hp hst hm =>
+      simp only [Th] at hst; rw [hst, hasProg_cons] at hb; left
+      simpa [Frame.inProgress] using hb
+  · left; simp only [Th]; rw [hs.others u hut]; exact hb
+
+theorem FStep.started_new {cfg : FCfg} {s s' : FState} {t : Tid} (hs : FStep cfg s t s') (x : Mod)
+    (h : s'.started x = true) : s.started x = true ∨ hasProg (Th s' t).stack x := by
+  cases hs <;> first
+    | exact Or.inl h
+    | (simp at h
+       rcases h with h | h
+       · right; subst h; simp only [Th, fsetT_same]; rw [hasProg_cons]; exact Or.inl rfl
+       · exact Or.inl h)
+
+
+theorem FStep.frameOk_mono {cfg : FCfg} {s s' : FState} {t : Tid} (hs : FStep cfg s t s') {f : Frame}
+    (h : frameOk s f) : frameOk s' f :=
+  ⟨fun ha => hs.started_mono _ (h.1 ha), fun m l e => hs.confDone_mono _ (h.2 m l e)⟩
+
+theorem frameOk_noafter {s : FState} {f : Frame} (h1 : f.after = false) (h2 : ∀ m l, f ≠ Frame.fin m l) : frameOk s f :=
+  ⟨fun ha => (by rw [h1] at ha; cases ha), fun m l e => absurd e (h2 m l)⟩
+
+theorem FlagInv.step {cfg : FCfg} {s s' : FState} {t : Tid} (h : FlagInv cfg s) (hs : FStep cfg s t s') :
+    FlagInv cfg s' := by
+  have hfrt := h.fr t
+  refine ⟨?_, ?_, ?_, ?_, ?_, ?_⟩
+  · -- prog
+    intro x hx
+    rcases hs.started_new x hx with h0 | h0
+    · rcases h.prog x h0 with h1 | ⟨u, h1⟩
+      · exact Or.inl (hs.done_mono x h1)
+      · rcases hs.prog_or_done u x h1 with h2 | h2
+        · exact Or.inr ⟨u, h2⟩
+        · exact Or.inl h2
+    · exact Or.inr ⟨t, h0⟩
+  · -- frames
+    intro u f hf
+    by_cases hut : u = t
+    · subst hut
+      have old : ∀ g, g ∈ (Th s u).stack → frameOk s' g := fun g hg => hs.frameOk_mono (hfrt g hg)
+      simp only [Th] at hf old
+      cases hs with
+      | fillEarlyInc m n hp he hk => exact old f (by simpa using hf)
+      | fillEarlyDone m n hp he hk => exact old f (by simpa using hf)
+      | fillLocalInc m n hp he hk => exact old f (by simpa using hf)
+      | fillLocalStore m n hp he hk => exact old f (by simpa using hf)
+      | accessFast m rest hp hst ht hf' hs => exact old f (by simpa using hf)
+      | accessStart m rest hp hst ht hf' =>
+        simp at hf; subst hf; exact frameOk_noafter rfl (fun _ _ e => by cases e)
+      | lookupHit m rest hp hst ht hr hw' => exact old f (by simpa using hf)
+      | lookupLoad m rest hp hst ht hw' =>
+        simp at hf; subst hf; exact frameOk_noafter rfl (fun _ _ e => by cases e)
+      | genHit m rest n hp hst ht hc => exact old f (by simpa using hf)
+      | genMissEarly m rest hp hst ht hc he => exact old f (by simpa using hf)
+      | genMissLocal m rest hp hst ht hc he => exact old f (by simpa using hf)
+      | acqP m fs lk hp hst ha =>
+        simp only [Th] at hst
+        simp only [fsetT_same, List.mem_cons] at hf
+        rcases hf with hf | hf
+        · subst hf; exact frameOk_noafter rfl (fun _ _ e => by cases e)
+        · exact old f (by rw [hst]; exact List.mem_cons_of_mem _ hf)
+      | acqM m l fs ml hp hst ha =>
+        simp only [Th] at hst
+        simp only [fsetT_same, List.mem_cons] at hf
+        rcases hf with hf | hf
+        · subst hf; exact frameOk_noafter rfl (fun _ _ e => by cases e)
+        · exact old f (by rw [hst]; exact List.mem_cons_of_mem _ hf)
+      | testHit m l fs hp hst hstart =>
+        simp only [Th] at hst
+        simp only [fsetT_same, List.mem_cons] at hf
+        rcases hf with hf | hf
+        · subst hf; exact ⟨fun _ => hstart, fun _ _ e => by cases e⟩
+        · exact old f (by rw [hst]; exact List.mem_cons_of_mem _ hf)
+      | testMiss m l fs hp hst hstart =>
+        simp only [Th] at hst
+        simp only [fsetT_same, List.mem_cons] at hf
+        rcases hf with hf | hf
+        · subst hf; exact frameOk_noafter rfl (fun _ _ e => by cases e)
+        · exact old f (by rw [hst]; exact List.mem_cons_of_mem _ hf)
+      | load m l fs hp hst =>
+        simp only [Th] at hst
+        simp only [fsetT_same, List.mem_cons] at hf
+        rcases hf with hf | hf
+        · subst hf; exact ⟨fun _ => by simp [Frame.mod], fun _ _ e => by cases e⟩
+        · exact old f (by rw [hst]; exact List.mem_cons_of_mem _ hf)
+      | nestLazy m l d rest fs hp hst =>
+        simp only [Th] at hst
+        simp only [fsetT_same, List.mem_cons] at hf
+        rcases hf with hf | hf | hf
+        · subst hf; exact frameOk_noafter rfl (fun _ _ e => by cases e)
+        · subst hf
+          have := old (.body m l (.lazy d :: rest)) (by rw [hst]; exact List.mem_cons_self)
+          exact ⟨fun _ => this.1 rfl, fun _ _ e => by cases e⟩
+        · exact old f (by rw [hst]; exact List.mem_cons_of_mem _ hf)
+      | nestDirect m l d rest fs hp hst =>
+        simp only [Th] at hst
+        simp only [fsetT_same, List.mem_cons] at hf
+        rcases hf with hf | hf | hf
+        · subst hf; exact frameOk_noafter rfl (fun _ _ e => by cases e)
+        · subst hf
+          have := old (.body m l (.direct d :: rest)) (by rw [hst]; exact List.mem_cons_self)
+          exact ⟨fun _ => this.1 rfl, fun _ _ e => by cases e⟩
+        · exact old f (by rw [hst]; exact List.mem_cons_of_mem _ hf)
+      | bodyEnd m l fs hp hst =>
+        simp only [Th] at hst
+        simp only [fsetT_same, List.mem_cons] at hf
+        rcases hf with hf | hf
+        · subst hf
+          have := old (.body m l []) (by rw [hst]; exact List.mem_cons_self)
+          exact ⟨fun _ => this.1 rfl, fun _ _ e => by cases e⟩
+        · exact old f (by rw [hst]; exact List.mem_cons_of_mem _ hf)
+      | confStep m l k fs hp hst =>
+        simp only [Th] at hst
+        simp only [fsetT_same, List.mem_cons] at hf
+        rcases hf with hf | hf
+        · subst hf
+          have := old (.conf m l (k + 1)) (by rw [hst]; exact List.mem_cons_self)
+          exact ⟨fun _ => this.1 rfl, fun _ _ e => by cases e⟩
+        · exact old f (by rw [hst]; exact List.mem_cons_of_mem _ hf)
+      | confEnd m l fs hp hst =>
+        simp only [Th] at hst
+        simp only [fsetT_same, List.mem_cons] at hf
+        rcases hf with hf | hf
+        · subst hf
+          have := old (.conf m l 0) (by rw [hst]; exact List.mem_cons_self)
+          refine ⟨fun _ => this.1 rfl, fun m' l' e => ?_⟩
+          injection e with e1 e2; subst e1; simp
+        · exact old f (by rw [hst]; exact List.mem_cons_of_mem _ hf)
+      | fin m l fs hp hst =>
+        simp only [Th] at hst
+        simp only [fsetT_same, List.mem_cons] at hf
+        rcases hf with hf | hf
+        · subst hf
+          have := old (.fin m l) (by rw [hst]; exact List.mem_cons_self)
+          exact ⟨fun _ => this.1 rfl, fun _ _ e => by cases e⟩
+        · exact old f (by rw [hst]; exact List.mem_cons_of_mem _ hf)
+      | leaveLock m fs ml lk hp hst hm hr =>
+        simp only [Th] at hst
+        simp only [fsetT_same, fpopFrame_stack] at hf
+        exact old f (by rw [hst]; exact List.mem_cons_of_mem _ hf)
+      | leaveFree m fs ml hp hst hm =>
+        simp only [Th] at hst
+        simp only [fsetT_same, fpopFrame_stack] at hf
+        exact old f (by rw [hst]; exact List.mem_cons_of_mem _ hf)
+    · simp only [Th] at hf
+      rw [hs.others u hut] at hf
+      exact hs.frameOk_mono (h.fr u f hf)
+  · -- done → confDone
+    intro x hx
+    cases hs <;> first
+      | exact h.d2c x hx
+      | (rename_i m l fs hp hst
+         simp at hx
+         rcases hx with hx | hx
+         · subst hx
+           exact (hfrt (.fin x l) (by simp only [Th] at hst ⊢; rw [hst]; exact List.mem_cons_self)).2 x l rfl
+         · exact h.d2c x hx)
+      | (simp; exact Or.inr (h.d2c x hx))
+  · -- confDone → registered
+    intro x hx
+    cases hs with
+    | bodyEnd m l fs hp hst =>
+      simp only [fsetT_registered, fsetT_confDone] at hx ⊢
+      by_cases hxm : x = m
+      · subst hxm; simp [h.c2r x hx]
+      · simp [hxm]; exact h.c2r x hx
+    | confEnd m l fs hp hst =>
+      simp only [fsetT_registered, fsetT_confDone] at hx ⊢
+      by_cases hxm : x = m
+      · subst hxm; simp
+      · simp [hxm] at hx ⊢; exact h.c2r x hx
+    | _ => exact h.c2r x hx
+  · -- registered → started
+    intro x hx
+    cases hs with
+    | load m l fs hp hst => simp; exact Or.inr (h.r2s x hx)
+    | bodyEnd m l fs hp hst =>
+      simp only [fsetT_registered, fsetT_started] at hx ⊢
+      by_cases hxm : x = m
+      · subst hxm
+        exact (hfrt (.body x l []) (by simp only [Th] at hst ⊢; rw [hst]; exact List.mem_cons_self)).1 rfl
+      · simp [hxm] at hx; exact h.r2s x hx
+    | confEnd m l fs hp hst =>
+      simp only [fsetT_registered, fsetT_started] at hx ⊢
+      by_cases hxm : x = m
+      · subst hxm
+        exact (hfrt (.conf x l 0) (by simp only [Th] at hst ⊢; rw [hst]; exact List.mem_cons_self)).1 rfl
+      · simp [hxm] at hx; exact h.r2s x hx
+    | _ => exact h.r2s x hx
+  · -- registered → confDone when the store comes last
+    intro hrf x hx
+    cases hs with
+    | bodyEnd m l fs hp hst =>
+      simp only [fsetT_registered, fsetT_confDone] at hx ⊢
+      by_cases hxm : x = m
+      · subst hxm; simp [hrf] at hx; exact h.regLast hrf x hx
+      · simp [hxm] at hx; exact h.regLast hrf x hx
+    | confEnd m l fs hp hst =>
+      simp only [fsetT_registered, fsetT_confDone] at hx ⊢
+      by_cases hxm : x = m
+      · subst hxm; simp
+      · simp [hxm] at hx ⊢; exact h.regLast hrf x hx
+    | _ => exact h.regLast hrf x hx
+
+
+/-! ### results -/
+
+def botMod : List Frame → Option Mod
+  | [] => none
+  | [f] => some f.mod
+  | _ :: g :: rest => botMod (g :: rest)
+
+theorem botMod_top {f f' : Frame} (fs : List Frame) (h : f'.mod = f.mod) : botMod (f' :: fs) = botMod (f :: fs) := by
+  cases fs with
+  | nil => simp [botMod, h]
+  | cons g rest => simp [botMod]
+
+structure FResInv (cfg : FCfg) (s : FState) : Prop where
+  cacheOk : cfg.publishEarly = false → ∀ m n, s.cache m = some n → n = cfg.tableSize m
+  pendLe : cfg.publishEarly = false → ∀ t m n, (Th s t).pending = some (m, n) → n ≤ cfg.tableSize m
+  bottom : ∀ t m, botMod (Th s t).stack = some m →
+    ∃ rest, (Th s t).todo = .access m :: rest ∨ (Th s t).todo = .lookup m :: rest
+  pend : ∀ t m n, (Th s t).pending = some (m, n) → ∃ rest, (Th s t).todo = .gen m :: rest
+
+theorem FResInv.step {cfg : FCfg} {s s' : FState} {t : Tid} (h : FResInv cfg s) (hs : FStep cfg s t s') :
+    FResInv cfg s' := by
+  have hbt := h.bottom t
+  have hpt := h.pend t
+  refine ⟨?_, ?_, ?_, ?_⟩
+  · intro hpe x v hx
+    have hc := h.cacheOk hpe
+    cases hs with
+    | fillEarlyInc m n hp he hk => rw [hpe] at he; cases he
+    | genMissEarly m rest hp hst ht hc' he => rw [hpe] at he; cases he
+    | fillLocalStore m n hp he hk =>
+      simp only [fsetT_cache] at hx
+      split at hx
+      · rename_i e; subst e
+        simp at hx; subst hx
+        have := h.pendLe hpe t x n hp
+        omega
+      · exact hc x v hx
+    | _ => exact hc x v hx
+  · intro hpe u x v hx
+    have hl := h.pendLe hpe
+    by_cases hut : u = t
+    · subst hut
+      simp only [Th] at hx
+      cases hs with
+      | fillEarlyInc m n hp he hk => rw [hpe] at he; cases he
+      | fillEarlyDone m n hp he hk => simp at hx
+      | fillLocalInc m n hp he hk =>
+        simp at hx; obtain ⟨rfl, rfl⟩ := hx; omega
+      | fillLocalStore m n hp he hk => simp at hx
+      | genMissEarly m rest hp hst ht hc he => rw [hpe] at he; cases he
+      | genMissLocal m rest hp hst ht hc he => simp at hx; obtain ⟨rfl, rfl⟩ := hx; omega
+      | accessFast m rest hp hst ht hf hs => simp [Th] at hp; simp [hp] at hx
+      | accessStart m rest hp hst ht hf => simp [Th] at hp; simp [hp] at hx
+      | lookupHit m rest hp hst ht hr hw' => simp [Th] at hp; simp [hp] at hx
+      | lookupLoad m rest hp hst ht hw' => simp [Th] at hp; simp [hp] at hx
+      | genHit m rest n hp hst ht hc => simp [Th] at hp; simp [hp] at hx
+      | acqP m fs lk hp hst ha => simp [Th] at hp; simp [hp] at hx
+      | acqM m l fs ml hp hst ha => simp [Th] at hp; simp [hp] at hx
+      | testHit m l fs hp hst hstart => simp [Th] at hp; simp [hp] at hx
+      | testMiss m l fs hp hst hstart => simp [Th] at hp; simp [hp] at hx
+      | load m l fs hp hst => simp [Th] at hp; simp [hp] at hx
+      | nestLazy m l d rest fs hp hst => simp [Th] at hp; simp [hp] at hx
+      | nestDirect m l d rest fs hp hst => simp [Th] at hp; simp [hp] at hx
+      | bodyEnd m l fs hp hst => simp [Th] at hp; simp [hp] at hx
+      | confStep m l k fs hp hst => simp [Th] at hp; simp [hp] at hx
+      | confEnd m l fs hp hst => simp [Th] at hp; simp [hp] at hx
+      | fin m l fs hp hst => simp [Th] at hp; simp [hp] at hx
+      | leaveLock m fs ml lk hp hst hm hr => simp [Th] at hp; simp [hp] at hx
+      | leaveFree m fs ml hp hst hm => simp [Th] at hp; simp [hp] at hx
+    · simp only [Th] at hx
+      rw [hs.others u hut] at hx
+      exact hl u x v hx
+  · intro u x hx
+    by_cases hut : u = t
+    · subst hut
+      simp only [Th] at hx hbt hpt ⊢
+      cases hs with
+      | fillEarlyInc m n hp he hk => simp only [fsetT_same] at hx ⊢; exact hbt x hx
+      | fillEarlyDone m n hp he hk =>
+        obtain ⟨r1, h1⟩ := hbt x (by simpa using hx)
+        obtain ⟨r2, h2⟩ := hpt m n hp
+        rcases h1 with h1 | h1 <;> (rw [h1] at h2; simp at h2)
+      | fillLocalInc m n hp he hk => simp only [fsetT_same] at hx ⊢; exact hbt x hx
+      | fillLocalStore m n hp he hk =>
+        obtain ⟨r1, h1⟩ := hbt x (by simpa using hx)
+        obtain ⟨r2, h2⟩ := hpt m n hp
+        rcases h1 with h1 | h1 <;> (rw [h1] at h2; simp at h2)
+      | accessFast m rest hp hst ht hf hs => simp [Th] at hst; simp [hst, botMod] at hx
+      | accessStart m rest hp hst ht hf =>
+        simp [botMod, Frame.mod] at hx; subst hx; exact ⟨rest, Or.inl (by simpa [Th] using ht)⟩
+      | lookupHit m rest hp hst ht hr hw' => simp [Th] at hst; simp [hst, botMod] at hx
+      | lookupLoad m rest hp hst ht hw' =>
+        simp [botMod, Frame.mod] at hx; subst hx; exact ⟨rest, Or.inr (by simpa [Th] using ht)⟩
+      | genHit m rest n hp hst ht hc => simp [Th] at hst; simp [hst, botMod] at hx
+      | genMissEarly m rest hp hst ht hc he => simp [Th] at hst; simp [hst, botMod] at hx
+      | genMissLocal m rest hp hst ht hc he => simp [Th] at hst; simp [hst, botMod] at hx
+      | acqP m fs lk hp hst ha =>
+        simp only [Th] at hst; simp only [fsetT_same] at hx ⊢
+        have e : botMod (Frame.wantM m true :: fs) = botMod (Frame.wantP m :: fs) := botMod_top fs rfl
+        rw [e, ← hst] at hx; exact hbt x hx
+      | acqM m l fs ml hp hst ha =>
+        simp only [Th] at hst; simp only [fsetT_same] at hx ⊢
+        have e : botMod (Frame.test m l :: fs) = botMod (Frame.wantM m l :: fs) := botMod_top fs rfl
+        rw [e, ← hst] at hx; exact hbt x hx
+      | testHit m l fs hp hst hstart =>
+        simp only [Th] at hst; simp only [fsetT_same] at hx ⊢
+        have e : botMod (Frame.leave m l :: fs) = botMod (Frame.test m l :: fs) := botMod_top fs rfl
+        rw [e, ← hst] at hx; exact hbt x hx
+      | testMiss m l fs hp hst hstart =>
+        simp only [Th] at hst; simp only [fsetT_same] at hx ⊢
+        have e : botMod (Frame.load m l :: fs) = botMod (Frame.test m l :: fs) := botMod_top fs rfl
+        rw [e, ← hst] at hx; exact hbt x hx
+      | load m l fs hp hst =>
+        simp only [Th] at hst; simp only [fsetT_same] at hx ⊢
+        have e : botMod (Frame.body m l (cfg.body m) :: fs) = botMod (Frame.load m l :: fs) := botMod_top fs rfl
+        rw [e, ← hst] at hx; exact hbt x hx
+      | nestLazy m l d rest fs hp hst =>
+        simp only [Th] at hst; simp only [fsetT_same, botMod] at hx ⊢
+        have e : botMod (Frame.body m l rest :: fs) = botMod (Frame.body m l (.lazy d :: rest) :: fs) := botMod_top fs rfl
+        rw [e, ← hst] at hx; exact hbt x hx
+      | nestDirect m l d rest fs hp hst =>
+        simp only [Th] at hst; simp only [fsetT_same, botMod] at hx ⊢
+        have e : botMod (Frame.body m l rest :: fs) = botMod (Frame.body m l (.direct d :: rest) :: fs) := botMod_top fs rfl
+        rw [e, ← hst] at hx; exact hbt x hx
+      | bodyEnd m l fs hp hst =>
+        simp only [Th] at hst; simp only [fsetT_same] at hx ⊢
+        have e : botMod (Frame.conf m l (cfg.cfgSteps m) :: fs) = botMod (Frame.body m l [] :: fs) := botMod_top fs rfl
+        rw [e, ← hst] at hx; exact hbt x hx
+      | confStep m l k fs hp hst =>
+        simp only [Th] at hst; simp only [fsetT_same] at hx ⊢
+        have e : botMod (Frame.conf m l k :: fs) = botMod (Frame.conf m l (k + 1) :: fs) := botMod_top fs rfl
+        rw [e, ← hst] at hx; exact hbt x hx
+      | confEnd m l fs hp hst =>
+        simp only [Th] at hst; simp only [fsetT_same] at hx ⊢
+        have e : botMod (Frame.fin m l :: fs) = botMod (Frame.conf m l 0 :: fs) := botMod_top fs rfl
+        rw [e, ← hst] at hx; exact hbt x hx
+      | fin m l fs hp hst =>
+        simp only [Th] at hst; simp only [fsetT_same] at hx ⊢
+        have e : botMod (Frame.leave m l :: fs) = botMod (Frame.fin m l :: fs) := botMod_top fs rfl
+        rw [e, ← hst] at hx; exact hbt x hx
+      | leaveLock m fs ml lk hp hst hm hr =>
+        simp only [Th] at hst; simp only [fsetT_same, fpopFrame_stack] at hx
+        cases fs with
+        | nil => simp [botMod] at hx
+        | cons g rest =>
+          simp only [fsetT_same, popFrame]
+          exact hbt x (by rw [hst]; simpa [botMod] using hx)
+      | leaveFree m fs ml hp hst hm =>
+        simp only [Th] at hst; simp only [fsetT_same, fpopFrame_stack] at hx
+        cases fs with
+        | nil => simp [botMod] at hx
+        | cons g rest =>
+          simp only [fsetT_same, popFrame]
+          exact hbt x (by rw [hst]; simpa [botMod] using hx)
+    · simp only [Th] at hx ⊢
+      rw [hs.others u hut] at hx ⊢
+      exact h.bottom u x hx
+  · intro u x v hx
+    by_cases hut : u = t
+    · subst hut
+      simp only [Th] at hx hpt ⊢
+      cases hs with
+      | fillEarlyInc m n hp he hk => simp only [fsetT_same] at hx ⊢; exact hpt x v hx
+      | fillEarlyDone m n hp he hk => simp at hx
+      | fillLocalInc m n hp he hk =>
+        simp at hx
+        obtain ⟨e1, e2⟩ := hx
+        subst e1
+        simp only [fsetT_same]
+        exact hpt m n hp
+      | fillLocalStore m n hp he hk => simp at hx
+      | genMissEarly m rest hp hst ht hc he =>
+        simp at hx; obtain ⟨rfl, rfl⟩ := hx; exact ⟨rest, by simpa [Th] using ht⟩
+      | genMissLocal m rest hp hst ht hc he =>
+        simp at hx; obtain ⟨rfl, rfl⟩ := hx; exact ⟨rest, by simpa [Th] using ht⟩
+      | accessFast m rest hp hst ht hf hs => simp [Th] at hp; simp [hp] at hx
+      | accessStart m rest hp hst ht hf => simp [Th] at hp; simp [hp] at hx
+      | lookupHit m rest hp hst ht hr hw' => simp [Th] at hp; simp [hp] at hx
+      | lookupLoad m rest hp hst ht hw' => simp [Th] at hp; simp [hp] at hx
+      | genHit m rest n hp hst ht hc => simp [Th] at hp; simp [hp] at hx
+      | acqP m fs lk hp hst ha => simp [Th] at hp; simp [hp] at hx
+      | acqM m l fs ml hp hst ha => simp [Th] at hp; simp [hp] at hx
+      | testHit m l fs hp hst hstart => simp [Th] at hp; simp [hp] at hx
+      | testMiss m l fs hp hst hstart => simp [Th] at hp; simp [hp] at hx
+      | load m l fs hp hst => simp [Th] at hp; simp [hp] at hx
+      | nestLazy m l d rest fs hp hst => simp [Th] at hp; simp [hp] at hx
+      | nestDirect m l d rest fs hp hst => simp [Th] at hp; simp [hp] at hx
+      | bodyEnd m l fs hp hst => simp [Th] at hp; simp [hp] at hx
+      | confStep m l k fs hp hst => simp [Th] at hp; simp [hp] at hx
+      | confEnd m l fs hp hst => simp [Th] at hp; simp [hp] at hx
+      | fin m l fs hp hst => simp [Th] at hp; simp [hp] at hx
+      | leaveLock m fs ml lk hp hst hm hr => simp [Th] at hp; simp [hp] at hx
+      | leaveFree m fs ml hp hst hm => simp [Th] at hp; simp [hp] at hx
+    · simp only [Th] at hx ⊢
+      rw [hs.others u hut] at hx ⊢
+      exact h.pend u x v hx
+
+
+theorem holdsMod_of_inProgress {f : Frame} {m : Mod} (h : f.inProgress = some m) : f.holdsMod = some m := by
+  cases f <;> simp_all [Frame.inProgress, Frame.holdsMod, Frame.mod]
+
+/-- an import returns to its caller only after the module body has finished — whoever ran it -/
+theorem done_of_leave_single {cfg : FCfg} {s : FState} {t : Tid} {m : Mod} {l : Bool} (hM : MInv s)
+    (hF : FlagInv cfg s) (hst : (Th s t).stack = [.leave m l]) : s.done m = true := by
+  have hstart : s.started m = true := (hF.fr t (.leave m l) (by simp [hst])).1 rfl
+  rcases hF.prog m hstart with h | ⟨u, f, hf, hp⟩
+  · exact h
+  · have h1 : 0 < mheld (Th s u).stack m := mheld_pos hf (holdsMod_of_inProgress hp)
+    have h2 : 0 < mheld (Th s t).stack m := mheld_pos (f := .leave m l) (by simp [hst]) rfl
+    have := hM.mutex h1 h2
+    subst this
+    rw [hst] at hf
+    simp at hf; subst hf
+    simp [Frame.inProgress] at hp
+
+/-- the source shape under which every call gives its sequential answer -/
+structure Good (cfg : FCfg) : Prop where
+  waits : cfg.lookupWaits = true
+  noFast : cfg.fastPath = false
+  noEarly : cfg.publishEarly = false
+
+def ffinal (cfg : FCfg) (th : Thread) : List Res := th.results ++ th.todo.map (fexpected cfg)
+
+theorem FStep.final_eq {cfg : FCfg} (hg : Good cfg) {s s' : FState} {t : Tid}
+    (hM : MInv s) (hF : FlagInv cfg s) (hV : FResInv cfg s) (hs : FStep cfg s t s') (u : Tid) :
+    ffinal cfg (Th s' u) = ffinal cfg (Th s u) := by
+  by_cases hut : u = t
+  · subst hut
+    simp only [Th]
+    cases hs with
+    | fillEarlyInc m n hp he hk => rw [hg.noEarly] at he; cases he
+    | fillEarlyDone m n hp he hk => rw [hg.noEarly] at he; cases he
+    | fillLocalInc m n hp he hk => simp [ffinal]
+    | fillLocalStore m n hp he hk =>
+      obtain ⟨rest, hr⟩ := hV.pend u m n hp
+      have := hV.pendLe hg.noEarly u m n hp
+      have e : n = cfg.tableSize m := by omega
+      simp only [Th] at hr
+      simp [ffinal, finishOp, hr, fexpected, e]
+    | accessFast m rest hp hst ht hf hs => rw [hg.noFast] at hf; cases hf
+    | accessStart m rest hp hst ht hf => simp [ffinal]
+    | lookupHit m rest hp hst ht hr hw =>
+      have hnot : initializing s m = false := by simpa [hg.waits] using hw
+      have hstart := hF.r2s m hr
+      have hdone : s.done m = true := by simpa [initializing, hstart] using hnot
+      have hconf := hF.d2c m hdone
+      simp only [Th] at ht
+      simp [ffinal, finishOp, ht, fexpected, hdone, hconf]
+    | lookupLoad m rest hp hst ht hw => simp [ffinal]
+    | genHit m rest n hp hst ht hc =>
+      have := hV.cacheOk hg.noEarly m n hc
+      simp only [Th] at ht
+      simp [ffinal, finishOp, ht, fexpected, this]
+    | genMissEarly m rest hp hst ht hc he => simp [ffinal]
+    | genMissLocal m rest hp hst ht hc he => simp [ffinal]
+    | acqP m fs lk hp hst ha => simp [ffinal]
+    | acqM m l fs ml hp hst ha => simp [ffinal]
+    | testHit m l fs hp hst hstart => simp [ffinal]
+    | testMiss m l fs hp hst hstart => simp [ffinal]
+    | load m l fs hp hst => simp [ffinal]
+    | nestLazy m l d rest fs hp hst => simp [ffinal]
+    | nestDirect m l d rest fs hp hst => simp [ffinal]
+    | bodyEnd m l fs hp hst => simp [ffinal]
+    | confStep m l k fs hp hst => simp [ffinal]
+    | confEnd m l fs hp hst => simp [ffinal]
+    | fin m l fs hp hst => simp [ffinal]
+    | leaveLock m fs ml lk hp hst hm hr =>
+      cases fs with
+      | nil =>
+        have hdone := done_of_leave_single hM hF hst
+        have hconf := hF.d2c m hdone
+        have hreg := hF.c2r m hconf
+        obtain ⟨rest, hr⟩ := hV.bottom u m (by rw [hst]; rfl)
+        simp only [Th] at hr
+        rcases hr with hr | hr <;>
+          simp [ffinal, popFrame, finishOp, opResult, hr, fexpected, hdone, hconf, hreg]
+      | cons g rest => simp [ffinal, popFrame]
+    | leaveFree m fs ml hp hst hm =>
+      cases fs with
+      | nil =>
+        have hdone := done_of_leave_single hM hF hst
+        have hconf := hF.d2c m hdone
+        have hreg := hF.c2r m hconf
+        obtain ⟨rest, hr⟩ := hV.bottom u m (by rw [hst]; rfl)
+        simp only [Th] at hr
+        rcases hr with hr | hr <;>
+          simp [ffinal, popFrame, finishOp, opResult, hr, fexpected, hdone, hconf, hreg]
+      | cons g rest => simp [ffinal, popFrame]
+  · simp only [Th]; rw [hs.others u hut]
+
+/-! ### what lookups hand out when only the store order is known (register last, no waiting) -/
+
+def clsGood : Res → Prop
+  | .cls _ f c _ => f = true → c = true
+  | _ => True
+
+def ResGood (s : FState) : Prop := ∀ t r, r ∈ (Th s t).results → clsGood r
+
+theorem ResGood.step {cfg : FCfg} (hrl : cfg.registerFirst = false) {s s' : FState} {t : Tid}
+    (hF : FlagInv cfg s) (h : ResGood s) (hs : FStep cfg s t s') : ResGood s' := by
+  intro u r hr
+  by_cases hut : u = t
+  · subst hut
+    have old := h u
+    have hreg := hF.regLast hrl
+    simp only [Th] at hr old
+    cases hs with
+    | fillEarlyInc m n hp he hk => exact old r (by simpa using hr)
+    | fillEarlyDone m n hp he hk =>
+      simp [finishOp] at hr; rcases hr with hr | hr
+      · exact old r hr
+      · subst hr; trivial
+    | fillLocalInc m n hp he hk => exact old r (by simpa using hr)
+    | fillLocalStore m n hp he hk =>
+      simp [finishOp] at hr; rcases hr with hr | hr
+      · exact old r hr
+      · subst hr; trivial
+    | accessFast m rest hp hst ht hf hs =>
+      simp [finishOp] at hr; rcases hr with hr | hr
+      · exact old r hr
+      · subst hr; trivial
+    | accessStart m rest hp hst ht hf => exact old r (by simpa using hr)
+    | lookupHit m rest hp hst ht hr' hw =>
+      simp [finishOp] at hr; rcases hr with hr | hr
+      · exact old r hr
+      · subst hr; exact fun _ => hreg m hr'
+    | lookupLoad m rest hp hst ht hw => exact old r (by simpa using hr)
+    | genHit m rest n hp hst ht hc =>
+      simp [finishOp] at hr; rcases hr with hr | hr
+      · exact old r hr
+      · subst hr; trivial
+    | genMissEarly m rest hp hst ht hc he => exact old r (by simpa using hr)
+    | genMissLocal m rest hp hst ht hc he => exact old r (by simpa using hr)
+    | acqP m fs lk hp hst ha => exact old r (by simpa using hr)
+    | acqM m l fs ml hp hst ha => exact old r (by simpa using hr)
+    | testHit m l fs hp hst hstart => exact old r (by simpa using hr)
+    | testMiss m l fs hp hst hstart => exact old r (by simpa using hr)
+    | load m l fs hp hst => exact old r (by simpa using hr)
+    | nestLazy m l d rest fs hp hst => exact old r (by simpa using hr)
+    | nestDirect m l d rest fs hp hst => exact old r (by simpa using hr)
+    | bodyEnd m l fs hp hst => exact old r (by simpa using hr)
+    | confStep m l k fs hp hst => exact old r (by simpa using hr)
+    | confEnd m l fs hp hst => exact old r (by simpa using hr)
+    | fin m l fs hp hst => exact old r (by simpa using hr)
+    | leaveLock m fs ml lk hp hst hm hr' =>
+      cases fs with
+      | nil =>
+        simp [popFrame, finishOp] at hr; rcases hr with hr | hr
+        · exact old r hr
+        · subst hr
+          unfold opResult
+          split
+          · exact fun e => hreg m e
+          · trivial
+      | cons g rest => exact old r (by simpa [popFrame] using hr)
+    | leaveFree m fs ml hp hst hm =>
+      cases fs with
+      | nil =>
+        simp [popFrame, finishOp] at hr; rcases hr with hr | hr
+        · exact old r hr
+        · subst hr
+          unfold opResult
+          split
+          · exact fun e => hreg m e
+          · trivial
+      | cons g rest => exact old r (by simpa [popFrame] using hr)
+  · simp only [Th] at hr
+    rw [hs.others u hut] at hr
+    exact h u r hr
+
+/-! ### all reachable states -/
+
+structure FInv (cfg : FCfg) (s : FState) : Prop where
+  m : MInv s
+  load : FLoadInv s
+  flag : FlagInv cfg s
+  res : FResInv cfg s
+
+theorem FInv.init (cfg : FCfg) (progs : Tid → List Op) : FInv cfg (finit progs) := by
+  refine ⟨⟨?_, ?_⟩, ⟨?_, ?_⟩, ⟨?_, ?_, ?_, ?_, ?_, ?_⟩, ⟨?_, ?_, ?_, ?_⟩⟩ <;>
+    simp [finit, Th, mheld, depthOf, shapeOk, botMod, hasProg]
+
+theorem FInv.step {cfg : FCfg} {s s' : FState} {t : Tid} (h : FInv cfg s) (hs : FStep cfg s t s') : FInv cfg s' :=
+  ⟨h.m.step hs, h.load.step h.m hs, h.flag.step hs, h.res.step hs⟩
+
+inductive FReach (cfg : FCfg) (s0 : FState) : FState → Prop
+  | init : FReach cfg s0 s0
+  | next {s s' : FState} {t : Tid} : FReach cfg s0 s → fstep cfg s t = some s' → FReach cfg s0 s'
+
+theorem FInv.reach {cfg : FCfg} {progs : Tid → List Op} {s : FState} (h : FReach cfg (finit progs) s) : FInv cfg s := by
+  induction h with
+  | init => exact FInv.init cfg progs
+  | next _ hs ih => exact ih.step (fstep_sound hs)
+
+theorem freach_frun {cfg : FCfg} {s0 s : FState} (h : FReach cfg s0 s) (sched : List Tid) :
+    FReach cfg s0 (frun cfg s sched) := by
+  induction sched generalizing s with
+  | nil => exact h
+  | cons t ts ih =>
+    simp only [frun]
+    split
+    · rename_i s' hs; exact ih (.next h hs)
+    · exact ih h
+
+theorem ffinal_reach {cfg : FCfg} (hg : Good cfg) {progs : Tid → List Op} {s : FState}
+    (h : FReach cfg (finit progs) s) (u : Tid) : ffinal cfg (Th s u) = fseq cfg (progs u) := by
+  induction h with
+  | init => simp [ffinal, finit, Th, fseq]
+  | next hr hs ih =>
+    have hI := FInv.reach hr
+    rw [(fstep_sound hs).final_eq hg hI.m hI.flag hI.res u, ih]
+
+theorem resGood_reach {cfg : FCfg} (hrl : cfg.registerFirst = false) {progs : Tid → List Op} {s : FState}
+    (h : FReach cfg (finit progs) s) : ResGood s := by
+  induction h with
+  | init => intro t r hr; simp [finit, Th] at hr
+  | next hr hs ih => exact ih.step hrl (FInv.reach hr).flag (fstep_sound hs)
+
+theorem frun_others (cfg : FCfg) (u : Tid) : ∀ (sched : List Tid) (s : FState), u ∉ sched →
+    (frun cfg s sched).threads u = s.threads u
+  | [], _, _ => rfl
+  | t :: ts, s, h => by
+    simp only [List.mem_cons, not_or] at h
+    simp only [frun]
+    split
+    · rename_i s' hs
+      rw [frun_others cfg u ts s' h.2, (fstep_sound hs).others u h.1]
+    · exact frun_others cfg u ts s h.2
+
+end Full
+
 end SqlglotModel.Threads
